@@ -18,7 +18,7 @@ from .sigs import PO, PK, VA, KO, VK
 from .sigutil import bparams, show, show_params, src_as_sets, sources_view, ident
 
 ROUTES = ['global', 'closure', 'attr', 'selfmethod', 'param_partial', 'inner_partial', 'wraps',
-          'default_param', 'callobj']
+          'default_param', 'callobj', 'clsmethod']
 CONTEXTS = ['expr', 'assign', 'return', 'if', 'ifelse', 'try', 'tryfinally', 'with', 'for', 'while',
             'listcomp', 'genexp', 'dictcomp', 'nested', 'lambda', 'argof', 'starof', 'dstarof', 'ternary',
             'nested_decorated', 'fstring', 'await_free_walrus',
@@ -222,6 +222,8 @@ def gen_program(case_seed, force=None):
         decoys_head.append(rnd.choice(('sink(ns.label)', 'sink(q_=ns.sub.label)', 'x_local = ns.sub.label', 'sink(ns.sub.label, ns.label)')))
     if route in ('selfmethod', 'default_param') and rnd.random() < 0.5:
         decoys_head.append(rnd.choice(('sink(self.label)', 'sink(q_=self.label)', 'x_local = self.label')))
+    if route == 'clsmethod' and rnd.random() < 0.5:
+        decoys_head.append(rnd.choice(('sink(cls.label)', 'sink(q_=cls.label)', 'x_local = cls.label')))
     for c in calls:
         c['decoy_after'] = rnd.choice(DECOYS).format() if rnd.random() < 0.25 else None
     meta = dict(case_seed=case_seed, route=route, po=po, ova=ova, ovk=ovk, calls=calls, taints=taints,
@@ -312,6 +314,8 @@ def callee_ref(route, ci):
         return 'callee%d' % ci
     if route == 'callobj':
         return 'callee%d' % ci
+    if route == 'clsmethod':
+        return 'cls.callee%d' % ci
     if route == 'wraps':
         return 'fn'
     if route == 'default_param':
@@ -421,6 +425,19 @@ def assemble(route, po, calls, body, decorate=False, modifier=None):
         src += defs + 'class W(object):\n    label = 1\n' + init
         src += '    def __call__(%s):\n%s\nwobj = W()\ntarget = wobj\nraw_outer = W.__call__\nclass_target = W\n' % (selfo, ind(body, 2))
         src += 'callee_objs = [%s]\n' % ', '.join('callee%d' % i for i in range(n))
+    elif route == 'clsmethod':
+        # a classmethod forwarding to static / class methods looked up on cls; retrieved through the class or an instance
+        clso = 'cls' + (', ' + ostr if ostr else '')
+        src += 'class K(object):\n    label = 1\n'
+        for i, c in enumerate(calls):
+            r = sigs.render(c['pi'])
+            if (i + len(body)) % 2:
+                src += '    @staticmethod\n    def callee%d(%s): return None\n' % (i, r)
+            else:
+                src += '    @classmethod\n    def callee%d(%s): return None\n' % (i, 'cls' + (', ' + r if r else ''))
+        src += '    @classmethod\n    def outer(%s):\n%s\n' % (clso, ind(body, 2))
+        src += 'target = %s\nraw_outer = K.__dict__["outer"].__func__\n' % ('K.outer' if len(body) % 3 else 'K().outer')
+        src += 'callee_objs = [%s]\n' % ', '.join('K.callee%d' % i for i in range(n))
     elif route == 'param_partial':
         fo = 'func' + (', ' + ostr if ostr else '')
         src += defs + 'def outer(%s):\n%s\ntarget = functools.partial(outer, callee0)\nraw_outer = outer\n' % (fo, ind(body))
@@ -558,7 +575,7 @@ def expected_for(meta, g, osig, combo):
         except ValueError:
             results.append(('merge-raises', 'plain'))
             continue
-        if route in ('selfmethod', 'callobj'):
+        if route in ('selfmethod', 'callobj', 'clsmethod'):
             try:
                 m = signatures.mask(m, 1)
             except ValueError:
